@@ -29,6 +29,9 @@ def _build():
     B2 = S.cat("b", 2, "last")
     # 2x2 with multiplicities: profile weight alphabet doubles as "m identical respondents"
     reg.add(S.schema2("cat2_x_cat2_mult", A2, B2), configs=[{}], quick=4, thorough=6)
+    # weights that are not exact binary fractions: degenerate (proportional) tables must still be
+    # recognised although the float sums are inexact
+    reg.add(S.schema2("cat2_x_cat2_fracw", A2, B2, weighted=True), (0.1, 0.2, 0.7), configs=[{}], quick=4, thorough=5)
     reg.mult = {"cat2_x_cat2_mult": (1, 3)}
     P = reg.profiles["cat2_x_cat2_mult"]
     reg.profiles["cat2_x_cat2_mult"] = [(p, m) for p in P for m in (1, 3)]
